@@ -111,51 +111,81 @@ def ppActivate (s : Streams) (pushed : Nat) : Streams :=
 /-- the part of `transition_after` that follows the reset-counter decrement -/
 def transitionTail (s : Streams) (id : Nat) : Streams := s.transitionAfter id false
 
-inductive Ev : Streams → Streams → Prop
-  | refl (s : Streams) : Ev s s
-  | trans {a b c : Streams} : Ev a b → Ev b c → Ev a c
-  | free {s s' : Streams} : Frame s s' → Ev s s'
-  | setStream {s : Streams} (st' : Stream) :
-      (∀ st, s.store.get? st'.key = some st → Same st st') → Ev s (s.setStream st')
-  | qPush {s : Streams} (q : QName) (k : Nat) : q ≠ .pendingResetExpired → q ≠ .pendingOpen → Ev s (s.qPush q k).1
-  | qPushFront {s : Streams} (q : QName) (k : Nat) : q ≠ .pendingResetExpired → q ≠ .pendingOpen → Ev s (s.qPushFront q k).1
-  | qPushOpen {s : Streams} (k : Nat) : s.counts.isLocalInit (s.stream k).id = true → Ev s (s.qPush .pendingOpen k).1
-  | qPop {s : Streams} (q : QName) : q ≠ .pendingResetExpired → q ≠ .pendingOpen → Ev s (s.qPop q).1
+/-- `EvB ρ s s'`: `s` evolves into `s'` by elementary steps.  With `ρ = false` the three steps that
+    create or count a peer-visible entry (`insert`, `bracket`, `incRecv`) are not available: that is
+    the relation for what a function does to an entry *it has just created itself* (the body of
+    `bracket`).  `Ev = EvB true` is the full relation. -/
+inductive EvB : Bool → Streams → Streams → Prop
+  | refl {ρ : Bool} (s : Streams) : EvB ρ s s
+  | trans {ρ : Bool} {a b c : Streams} : EvB ρ a b → EvB ρ b c → EvB ρ a c
+  | free {ρ : Bool} {s s' : Streams} : Frame s s' → EvB ρ s s'
+  | setStream {ρ : Bool} {s : Streams} (st' : Stream) :
+      (∀ st, s.store.get? st'.key = some st → Same st st') → EvB ρ s (s.setStream st')
+  | qPush {ρ : Bool} {s : Streams} (q : QName) (k : Nat) : q ≠ .pendingResetExpired → q ≠ .pendingOpen → EvB ρ s (s.qPush q k).1
+  | qPushFront {ρ : Bool} {s : Streams} (q : QName) (k : Nat) : q ≠ .pendingResetExpired → q ≠ .pendingOpen → EvB ρ s (s.qPushFront q k).1
+  | qPushOpen {ρ : Bool} {s : Streams} (k : Nat) : s.counts.isLocalInit (s.stream k).id = true → EvB ρ s (s.qPush .pendingOpen k).1
+  | qPop {ρ : Bool} {s : Streams} (q : QName) : q ≠ .pendingResetExpired → q ≠ .pendingOpen → EvB ρ s (s.qPop q).1
   /-- `clear_pending_open`'s pop -/
-  | qPopOpen {s : Streams} : Ev s (s.qPop .pendingOpen).1
+  | qPopOpen {ρ : Bool} {s : Streams} : EvB ρ s (s.qPop .pendingOpen).1
   /-- `enqueue_reset_expiration` -/
-  | resetEnq {s : Streams} (k : Nat) :
+  | resetEnq {ρ : Bool} {s : Streams} (k : Nat) :
       s.counts.canIncNumResetStreams = true → (s.stream k).resetAt = false → (s.store.get? k).isSome = true →
-      Ev s ((s.modCountsA "can_inc_num_reset_streams" Counts.incNumResetStreams).qPush .pendingResetExpired k).1
+      EvB ρ s ((s.modCountsA "can_inc_num_reset_streams" Counts.incNumResetStreams).qPush .pendingResetExpired k).1
   /-- a new slab entry whose first HEADERS the peer may still send (remote initiated) -/
   | insert {s : Streams} (st : Stream) : Fresh st → s.counts.isLocalInit st.id = false →
-      Ev s { s with store := (s.store.insert st).1 }
+      EvB true s { s with store := (s.store.insert st).1 }
   /-- a new slab entry of any direction, together with what the caller does to it at once -/
   | bracket {s s' : Streams} (st : Stream) : Fresh st →
-      Ev { s with store := (s.store.insert st).1 } s' →
-      (ErrOK s' → ∀ x, s'.store.get? s.store.nextKey = some x → ¬ Early x) → Ev s s'
-  | unlink {s : Streams} (id : Nat) : Ev s { s with store := s.store.unlink id }
-  | remove {s : Streams} (k n : Nat) :
+      EvB false { s with store := (s.store.insert st).1 } s' →
+      (ErrOK s' → ∀ x, s'.store.get? s.store.nextKey = some x → ¬ Early x) → EvB true s s'
+  | unlink {ρ : Bool} {s : Streams} (id : Nat) : EvB ρ s { s with store := s.store.unlink id }
+  | remove {ρ : Bool} {s : Streams} (k n : Nat) :
       (∀ st, s.store.get? k = some st → st.isCounted = false ∧ (∀ q, st.isQueued q = false)) →
-      Ev s { s with store := s.store.remove k, recvBufferLeaked := n }
+      EvB ρ s { s with store := s.store.remove k, recvBufferLeaked := n }
   /-- `pop_pending_open`'s pop + `inc_num_send_streams` -/
-  | popOpen {s : Streams} : s.counts.canIncNumSendStreams = true →
-      Ev s (match s.qPop .pendingOpen with
+  | popOpen {ρ : Bool} {s : Streams} : s.counts.canIncNumSendStreams = true →
+      EvB ρ s (match s.qPop .pendingOpen with
             | (s', some id) => s'.incNumSendStreams id
             | (s', none) => s')
   /-- the `NextAccept` link of a promised stream is also used by its parent's `pending_push_promises` -/
-  | acceptFlag {s : Streams} (k : Nat) (v : Bool) : Ev s (s.modStream k fun st => { st with isPendingAccept := v })
+  | acceptFlag {ρ : Bool} {s : Streams} (k : Nat) (v : Bool) : EvB ρ s (s.modStream k fun st => { st with isPendingAccept := v })
   /-- `send_push_promise`: a PUSH_PROMISE frame for a locally initiated (promised) id is queued -/
-  | queuePP {s : Streams} (k pk pid : Nat) (fields : List Hpack.Field) : s.counts.isLocalInit pid = true →
-      Ev s (s.modStream k fun st => { st with pendingSend := st.pendingSend ++ [.pushPromise pk pid fields] })
+  | queuePP {ρ : Bool} {s : Streams} (k pk pid : Nat) (fields : List Hpack.Field) : s.counts.isLocalInit pid = true →
+      EvB ρ s (s.modStream k fun st => { st with pendingSend := st.pendingSend ++ [.pushPromise pk pid fields] })
   /-- `pop_frame`'s PUSH_PROMISE arm: the frame leaves the parent's queue, the promised stream is activated -/
-  | ppAct {s : Streams} (id pk pid : Nat) (fields : List Hpack.Field) (rest : List SFrame) (pushed : Nat) :
+  | ppAct {ρ : Bool} {s : Streams} (id pk pid : Nat) (fields : List Hpack.Field) (rest : List SFrame) (pushed : Nat) :
       (s.stream id).pendingSend = .pushPromise pk pid fields :: rest → s.store.findKey? pid = some pushed →
-      Ev s (ppActivate (s.modStream id fun st => { st with pendingSend := rest }) pushed)
+      EvB ρ s (ppActivate (s.modStream id fun st => { st with pendingSend := rest }) pushed)
   /-- `recv_headers`: the state moves out of `Idle`/`ReservedRemote` and the stream is counted -/
   | incRecv {s : Streams} (k : Nat) (st' : State) (s1 : Streams) : Early (s.stream k) →
-      Frame (s.modStream k fun st => { st with state := st' }) s1 → Ev s (s1.incNumRecvStreams k)
-  | decNum {s : Streams} (k : Nat) : Ev s (s.decNumStreams k)
+      Frame (s.modStream k fun st => { st with state := st' }) s1 → EvB true s (s1.incNumRecvStreams k)
+  | decNum {ρ : Bool} {s : Streams} (k : Nat) : EvB ρ s (s.decNumStreams k)
+
+/-- the full evolution relation -/
+abbrev Ev : Streams → Streams → Prop := EvB true
+
+theorem EvB.lift {ρ : Bool} {s s' : Streams} (h : EvB ρ s s') : Ev s s' := by
+  induction h with
+  | refl s => exact .refl s
+  | trans _ _ ih1 ih2 => exact .trans ih1 ih2
+  | free h => exact .free h
+  | setStream st' h => exact .setStream st' h
+  | qPush q k h1 h2 => exact .qPush q k h1 h2
+  | qPushFront q k h1 h2 => exact .qPushFront q k h1 h2
+  | qPushOpen k h => exact .qPushOpen k h
+  | qPop q h1 h2 => exact .qPop q h1 h2
+  | qPopOpen => exact .qPopOpen
+  | resetEnq k h1 h2 h3 => exact .resetEnq k h1 h2 h3
+  | insert st h1 h2 => exact .insert st h1 h2
+  | bracket st h1 h2 h3 _ => exact .bracket st h1 h2 h3
+  | unlink id => exact .unlink id
+  | remove k n h => exact .remove k n h
+  | popOpen h => exact .popOpen h
+  | acceptFlag k v => exact .acceptFlag k v
+  | queuePP k pk pid f h => exact .queuePP k pk pid f h
+  | ppAct id pk pid f rest pushed h1 h2 => exact .ppAct id pk pid f rest pushed h1 h2
+  | incRecv k st' s1 h1 h2 => exact .incRecv k st' s1 h1 h2
+  | decNum k => exact .decNum k
 
 /-- `Ev` plus the pop of `pending_reset_expired` followed by its `transition_after(stream, true)` -/
 inductive EvT : Streams → Streams → Prop
@@ -168,9 +198,9 @@ inductive EvT : Streams → Streams → Prop
 
 theorem EvT.refl (s : Streams) : EvT s s := .ev (.refl s)
 
-theorem Ev.of_eq {s a b : Streams} (h : a = b) (e : Ev s a) : Ev s b := h ▸ e
-theorem Ev.of_fst_eq {s : Streams} {α : Type} {p : Streams × α} {a : Streams} {x : α}
-    (h : p = (a, x)) (e : Ev s p.1) : Ev s a := by subst h; exact e
+theorem EvB.of_eq {ρ : Bool} {s a b : Streams} (h : a = b) (e : EvB ρ s a) : EvB ρ s b := h ▸ e
+theorem EvB.of_fst_eq {ρ : Bool} {s : Streams} {α : Type} {p : Streams × α} {a : Streams} {x : α}
+    (h : p = (a, x)) (e : EvB ρ s p.1) : EvB ρ s a := by subst h; exact e
 theorem EvT.of_fst_eq {s : Streams} {α : Type} {p : Streams × α} {a : Streams} {x : α}
     (h : p = (a, x)) (e : EvT s p.1) : EvT s a := by subst h; exact e
 
